@@ -1,6 +1,7 @@
 package main
 
 import (
+	"go/token"
 	"fmt"
 	"go/types"
 	"strings"
@@ -352,7 +353,7 @@ func checkClone(p *Program, r *Report, pv *Prov) {
 					// the last store to that field before the load is a Copy() result
 					for _, st := range storesToField(fn, "text/template", "Template", "Tree") {
 						sfa := st.Addr.(*ssa.FieldAddr)
-						if sfa.X == fa.X && before(st, u) {
+						if sfa.X == fa.X && before(st, u) && storeOnEveryPath(st, u) {
 							if cp, ok := isCallTo(st.Val, "(*text/template/parse.Tree).Copy"); ok {
 								// copy of the same template's own tree
 								src := pv.Of(cp.Common().Args[0])
@@ -415,4 +416,47 @@ func checkClone(p *Program, r *Report, pv *Prov) {
 	r.Check(okRecv && n > 0, "C07.R3", cn+"#refuses-executed-receiver", p.Pos(fn.Pos()), "succeeds only if the receiver has not been executed (escapeErr == nil)", "Clone can succeed for a template that has already been executed")
 	r.Check(okSet && n > 0, "C07.R3", cn+"#refuses-executed-set", p.Pos(fn.Pos()), "succeeds only while the name space's freeze flag (escaped) is unset", "Clone never consults the freeze flag of the name space: after root.New(\"root\") replaced the executed template by a fresh one, a set whose trees were already rewritten is cloned and the clone sanitizes twice")
 	r.Check(okMember, "C07.R3", cn+"#refuses-executed-member", p.Pos(fn.Pos()), "a member is cloned only if it exists in the original set and has not been executed", "Clone copies a member that has already been executed (and rewritten)")
+}
+
+// storeOnEveryPath: the store st is executed on every path to the use u, except on paths that skipped it because
+// the stored location held nil (a nil tree needs no copy).
+func storeOnEveryPath(st *ssa.Store, u ssa.Instruction) bool {
+	if st.Block() == u.Block() || st.Block().Dominates(u.Block()) {
+		return true
+	}
+	// the guards under which the store runs and the use does not
+	useGuards := map[ssa.Value]bool{}
+	for _, g := range GuardsOf(u.Block()) {
+		useGuards[g.Cond] = true
+	}
+	for _, g := range GuardsOf(st.Block()) {
+		if useGuards[g.Cond] {
+			continue
+		}
+		bo, ok := g.Cond.(*ssa.BinOp)
+		if !ok || (bo.Op != token.NEQ && bo.Op != token.EQL) || (bo.Op == token.NEQ) != g.Pol {
+			return false
+		}
+		var other ssa.Value
+		switch {
+		case isNilConst(bo.Y):
+			other = bo.X
+		case isNilConst(bo.X):
+			other = bo.Y
+		default:
+			return false
+		}
+		// the tested value is a load of the location that is stored to
+		ld, ok := other.(*ssa.UnOp)
+		if !ok {
+			return false
+		}
+		fa, ok1 := ld.X.(*ssa.FieldAddr)
+		sfa, ok2 := st.Addr.(*ssa.FieldAddr)
+		if !ok1 || !ok2 || fa.X != sfa.X || fa.Field != sfa.Field {
+			return false
+		}
+	}
+	// and the block that skips the store must rejoin before the use: the store's block reaches the use
+	return forwardReach(st.Block(), u.Block())
 }
